@@ -6,6 +6,7 @@ texts + direct evaluation of the property on every binding of real files / gener
 """
 import ast
 import os
+import sys
 
 from common import coq_list, coq_N, coq_nat, stdlib_files
 
@@ -21,8 +22,14 @@ def chars(s):
 
 
 def dset_term(delims, ends, scope_mod):
+    """`ends` is a tag ('import' / 'def': the model's OWN delimiter tables, so that an edit of the
+    tables in scope.py shows up as a disagreement) or a literal string (other call sites)."""
     if not delims:
         return 'None'
+    if ends == 'import':
+        return '(Some (import_delims, import_end_delims))'
+    if ends == 'def':
+        return '(Some (import_delims, def_end_delims))'
     return '(Some (%s, %s))' % (chars(scope_mod.IMPORT_DELIMETERS), chars(ends))
 
 
@@ -54,7 +61,15 @@ def record_calls(files, ctx):
 
     def rec(self, id, start, shift=0, delimeters=True, *a, **kw):
         res = orig(self, id, start, shift, delimeters, *a, **kw)
-        ends = a[0] if a else kw.get('end_delimeters', getattr(sc, 'IMPORT_END_DELIMETERS'))
+        explicit = a[0] if a else kw.get('end_delimeters')
+        caller = sys._getframe(1).f_code.co_name
+        cls = type(sys._getframe(1).f_locals.get('self')).__name__
+        if cls in ('FuncScope', 'ClassScope') and caller == '__init__':
+            ends = 'def'              # a def / class name: the model's own DEF table
+        elif explicit is None or explicit is getattr(sc, 'IMPORT_END_DELIMETERS', None):
+            ends = 'import'           # an import alias: the model's own IMPORT table
+        else:
+            ends = explicit           # other call sites (e.g. the `import` keyword search): literal
         calls.append((self.source.lines, id, start, shift, delimeters, ends, res))
         return res
 
@@ -87,6 +102,28 @@ def binding_failures(fn, text, scope):
     handlers = {(h.lineno, h.col_offset) for h in ast.walk(tree) if isinstance(h, ast.ExceptHandler)}
     bad = []
     n = 0
+    # line spans of the statements that bind each identifier through import / def / class
+    spans = {}
+    for node in ast.walk(tree):
+        if isinstance(node, (ast.Import, ast.ImportFrom)):
+            for a in node.names:
+                ident = a.asname or a.name.split('.')[0]
+                spans.setdefault(ident, []).append((node.lineno, getattr(node, 'end_lineno', node.lineno)))
+        elif isinstance(node, (ast.FunctionDef, ast.AsyncFunctionDef, ast.ClassDef)):
+            spans.setdefault(node.name, []).append((node.lineno, node.body[0].lineno))
+    positions = {}
+    from supp.scope import FuncScope, ClassScope
+    for _flow, name in scope.all_names:
+        if getattr(name, 'is_star', False) or getattr(name, 'location', None) == (0, 0):
+            continue
+        if isinstance(name, (ImportedName, FuncScope, ClassScope)):
+            l0 = name.declared_at[0]
+            if name.name in spans and not any(a <= l0 <= b for a, b in spans[name.name]):
+                bad.append((name.name, tuple(name.declared_at), 'position is outside every statement that binds this name'))
+            key = tuple(name.declared_at)
+            if key in positions and positions[key] is not name and positions[key].name == name.name:
+                bad.append((name.name, key, 'two distinct bindings reported at the same position'))
+            positions[key] = name
     for _flow, name in scope.all_names:
         if getattr(name, 'is_star', False):
             continue
@@ -125,6 +162,9 @@ LAYOUTS = [
     'def {a}({b}, {c}=1, *{d}, **kw): pass', 'lambda {a}, *{b}: 0', 'def {a}({b}:int, /, {c}, *, {d}): pass',
     '{a}: int = 1', 'if ({a} := 1): pass', 'def d(): pass', 'async def d(): pass', 'async def de(): pass',
     'class c: pass', 'def f(f): pass', 'class A(A): pass',
+    'def {a}[T](x: T): pass', 'class {a}[T]: pass', 'async def {a}[K, V](): pass', 'class {a}[T](object): pass',
+    'from .import {a}\nimport {b}', 'from .import {a}\nfrom . import {b}\nimport {c}', 'from .import {a}, {b}\nx = 1\nimport {c} as {d}',
+    'from . import {a}\nimport {a}', 'import {a}\nimport {a}', 'from {a} import {b}\nfrom {c} import {b}',
 ]
 NAMES = ['a', 'b', 'os', 'sys', 'x', 'foo', 'bar_1', 'de', 'd', 'def_', 'imp', 'as_', 'A', 'Cls', 'port', 'rom', 'f', 'e', 'n', '_p']
 
@@ -154,7 +194,7 @@ def gen_layouts(ctx, n):
 def random_text_cases(ctx, n, scope_mod):
     """Synthetic calls on random small texts over an alphabet rich in delimiters."""
     from supp.util import Source
-    alpha = 'ab ab\t(),.;#\\:=x_'
+    alpha = 'ab ab\t(),.;#\\:=x_[*'
     cases = []
     for i in range(n):
         nlines = ctx.rng.randint(1, 4)
@@ -165,17 +205,14 @@ def random_text_cases(ctx, n, scope_mod):
         sl = ctx.rng.randint(1, len(lines))
         pos = ctx.rng.randint(0, max(0, len(lines[sl - 1])))
         delims = ctx.rng.random() < 0.75
-        ends = ctx.rng.choice([scope_mod.IMPORT_END_DELIMETERS, getattr(scope_mod, 'DEF_END_DELIMETERS', scope_mod.IMPORT_END_DELIMETERS)])
+        tag = ctx.rng.choice(['import', 'def'])
+        ends = scope_mod.IMPORT_END_DELIMETERS if tag == 'import' else scope_mod.DEF_END_DELIMETERS
         shift = ctx.rng.choice([0, 0, 1])
         src = Source('\n'.join(lines), 'r.py')
         sc_ = scope_mod.SourceScope(src)
         lines_seen = list(src.lines)
-        try:
-            res = sc_.find_id_loc(id_, (sl, pos), shift, delims, ends)
-        except TypeError:
-            res = sc_.find_id_loc(id_, (sl, pos), shift, delims)
-            ends = scope_mod.IMPORT_END_DELIMETERS
-        cases.append((lines_seen, id_, (sl, pos), shift, delims, ends, res))
+        res = sc_.find_id_loc(id_, (sl, pos), shift, delims, ends)
+        cases.append((lines_seen, id_, (sl, pos), shift, delims, tag, res))
     return cases
 
 
@@ -253,7 +290,7 @@ def run(ctx):
         for i in bad[:50]:
             win, id_, start, shift, delims, ends, res = keep[i]
             l, c = res
-            text_ok = (start == res) or (1 <= l <= len(win) and win[l - 1][c - shift + (0 if shift == 0 else 0):].startswith(id_.lstrip(' ') if shift else id_))
+            text_ok = (list(start) == list(res)) or (1 <= l <= len(win) and win[l - 1][c - shift:].startswith(id_))
             if not text_ok:
                 found_any = True
                 ctx.violation('find_id_loc(%r, %r) returned %r where the text is not the identifier' % (id_, start, res),
@@ -286,7 +323,8 @@ def replay(ctx, obj):
         return 1 if bad else 0
     if r.get('kind') == 'find_id_loc':
         src = Source('\n'.join(r['window']), 'replay.py')
-        res = sc.SourceScope(src).find_id_loc(r['id'], tuple(r['start']), r['shift'], r['delims'], r['ends'])
+        ends = {'import': sc.IMPORT_END_DELIMETERS, 'def': sc.DEF_END_DELIMETERS}.get(r['ends'], r['ends'])
+        res = sc.SourceScope(src).find_id_loc(r['id'], tuple(r['start']), r['shift'], r['delims'], ends)
         print('result', res)
         return 1
     print(obj.get('what'))
